@@ -9,14 +9,34 @@ observed block."""
 from ..sysdriver import collect, run_tlc_judge
 from ..tlc import MachineryError
 
-OPTS = {'storage': ['dense', 'rowscols', 'coo', 'csr', 'csc', 'diag', 'matfree']}
+OPTS = {'storage': ['dense', 'rowscols', 'coo', 'csr', 'csc', 'diag', 'matfree'], 'bil': .2}
+
+
+def pred_voi_bare_nd(scn, info):
+    """known finding (root cause = C05-nontuple-index-nd-source-flat-positions): a design variable or response
+    declared with a NON-tuple int / slice / array index and flat_indices=False on a multi-dimensional variable"""
+    md = scn.get('model') or {}
+    cl = info.get('clause', '')
+    if 'block' not in cl:
+        # the same defect can also surface as an exception while the total jacobian is scattered
+        ob = str(info.get('observed', ''))
+        if not ('exception from OpenMDAO' in cl and (ob.startswith('IndexError') or 'shape mismatch' in ob
+                                                       or 'broadcast' in ob)):
+            return False
+    for v in md.get('desvars', []) + md.get('responses', []):
+        t = v.get('indices_term')
+        if t is not None and t['k'] in ('int', 'slice', 'arr') and not v.get('flat_indices') and \
+                len(md['outs'][v['oid']]['shape']) > 1:
+            return True
+    return False
 
 
 def run(ctx, opts=None, pid='C01'):
     quick = ctx.tier == 'quick'
-    n = 150 if quick else 2400
+    n = 240 if quick else 3000
     base = 1000003 * (ctx.seed % 1000)
-    res = collect(ctx, range(base, base + n), dict(OPTS, **(opts or {})), 3 if quick else 6, want_runs=True)
+    ctx.register_predicates({'C01-voi-nontuple-index-nd': pred_voi_bare_nd})
+    res = collect(ctx, range(base, base + n), dict(OPTS, voi_bare_nd=True, **(opts or {})), 3 if quick else 6, want_runs=True)
     judge(ctx, res)
 
 
@@ -53,7 +73,8 @@ def judge(ctx, res, clause_prefix=''):
                               clause_prefix + 'd(outputs)/d(independents) differs from the exact derivative')
             elif not cv['blocks']:
                 ctx.violation({'seed': r['seed'], 'cfg': c, 'model': r['md']}, 'blocks of TotalAll (rows/cols by indices, scaled)',
-                              r['case']['cfgs'][j]['blocks'], clause_prefix + 'design-variable/response block differs from the exact derivative')
+                              r['case']['cfgs'][j]['blocks'], clause_prefix + 'design-variable/response block differs from the exact derivative',
+                              info={'clause': 'block'})
     ctx.impl = len(cases)
     ctx.evaluations = ncfg + len(cases)
     ctx.extra['configurations_judged'] = ncfg
